@@ -450,3 +450,88 @@ def c20(run):
                              "(predicates, DE-9IM both ways, measures, envelope, hull, distance, set-operation point sets)"}
     family_enumerated(run, "empty", "Gen_Empties", "Trace_Empties")
     family_random(run, "empty", "Trace_Empties", tier_n(run, 1200, 60000))
+
+FAMILY_MODULE["purity"] = "Trace_Purity"
+
+import json as _json
+import os as _os
+import vlib as _vlib
+from vlib import MachineryError as _ME
+
+
+def _purity_round(run, cases_path, tag):
+    """Execute the cases in two fresh race-detector processes and join each pair of histories with a Restart event."""
+    outs = []
+    for k in ("a", "b"):
+        out = _os.path.join(run.dir, "purity-%s-%s.ndjson" % (tag, k))
+        logp = _os.path.join(run.dir, "race-%s-%s" % (tag, k))
+        run.drive(["one", "purity"], out_path=out, stdin_path=cases_path, race=True,
+                  env={"GORACE": "log_path=%s exitcode=0 halt_on_error=0" % logp})
+        outs.append(out)
+    ea, eb = _vlib.load_events(outs[0]), _vlib.load_events(outs[1])
+    if len(ea) != len(eb):
+        raise _ME("purity: the two processes produced different numbers of histories")
+    joined = _os.path.join(run.dir, "purity-%s-joined.ndjson" % tag)
+    with open(joined, "w") as f:
+        for x, y in zip(ea, eb):
+            x["evs"] = x["evs"] + [{"e": "Restart"}] + y["evs"]
+            f.write(_json.dumps(x, separators=(",", ":")) + "\n")
+    return joined, ea
+
+
+def _canary_purity(e):
+    for x in e["evs"]:
+        if x["e"] == "End":
+            x["post"] = [x["post"][0][:-1] + ("0" if x["post"][0][-1] != "0" else "1"), x["post"][1]]
+            return e
+    return None
+
+
+CANARY["purity"] = _canary_purity
+
+
+@prop("C10")
+def c10(run):
+    run.assumptions += ["schedule coverage is what the Go scheduler and the race detector observe (the library has no synchronisation "
+                        "to gate); digests are SHA-256 prefixes of WKB+WKT / result renderings; the recorder does not synchronise the "
+                        "goroutines it observes (per-goroutine buffers merged after Wait)"]
+    run.extra_cov = {"rule": "histories of 2, 3, 4, 8, 16 goroutines x 60 calls over 5..8 shared lattice geometries (incl. XYZM) and a "
+                             "shared bulk-loaded R-tree, 31 operations of the public read API (codecs, validation, predicates, set "
+                             "operations, hull, distance, simplification, transforms, R-tree searches), built with -race; every "
+                             "history is executed by two fresh processes and joined (map iteration order differs per process and per "
+                             "range), so results must be functions of the operand digests across goroutines and processes"}
+    run.model_check("MC_Purity", timeout=1800)
+    n = tier_n(run, 20, 400)
+    # generate the cases once (record mode of a non-race build only to obtain the repro strings would execute them; use Gen via record and keep repro)
+    seedfile = _os.path.join(run.dir, "purity-cases.ndjson")
+    import random
+    rnd = random.Random(run.seed * 7919 + 13)
+    with open(seedfile, "w") as f:
+        for i in range(n):
+            f.write(_json.dumps({"seed": rnd.getrandbits(62), "threads": [2, 3, 4, 8, 16][i % 5], "calls": 60,
+                                 "nvals": 5 + rnd.randrange(4)}, separators=(",", ":")) + "\n")
+    joined, evs = _purity_round(run, seedfile, "r1")
+    verdicts, nh = run.validate("Trace_Purity", joined, label="two-process histories")
+    run.evaluations += sum(len(e["evs"]) for e in evs) * 2
+    run.traces += sum(len(e["evs"]) for e in evs) * 2 - nh     # recorded Begin/End events judged, not histories
+    for e in evs:
+        run.hashes.add(e["h"])
+    run.samples.append({"family": "purity", "case": evs[0]["repro"], "first_events": evs[0]["evs"][:4]})
+    bad = [v for v in verdicts if _vlib.classify(v) == "mismatch"]
+    if bad:
+        # reproduce: run the offending histories again in two fresh processes
+        lines = sorted({v["l"] for v in bad})[:10]
+        again = _os.path.join(run.dir, "purity-again.ndjson")
+        with open(again, "w") as f:
+            for l in lines:
+                f.write(evs[l - 1]["repro"] + "\n")
+        joined2, evs2 = _purity_round(run, again, "r2")
+        v2, _ = run.validate("Trace_Purity", joined2, label="confirm", count=False)
+        bad2 = {v["l"]: v for v in v2 if _vlib.classify(v) == "mismatch"}
+        if not bad2:
+            raise _ME("purity mismatch not reproduced: %s" % bad[:3])
+        for idx, v in bad2.items():
+            run.mismatches.append({"family": "purity", "reason": v["r"], "repro": _json.loads(evs2[idx - 1]["repro"]),
+                                   "deterministic": False, "event": {"i": v.get("i")}})
+    else:
+        props.canary(run, "purity", "Trace_Purity", joined)
